@@ -49,6 +49,7 @@ class Unit:
         self.anchors_lost = []
         self.assumed = []
         self.demote = set()
+        self.drop_hints = set()
         self.demoted_info = []
 
     def src(self, rel):
@@ -222,6 +223,8 @@ class Unit:
         b = Body(body_text, base_line)
         if 'R7' in allowed:
             b.r7_option_combinators()
+        if 'R9' in allowed:
+            b.r9_filter_count()
         b.r4_logging()
         b.r2_assert()
         b.r3_panic_closure()
@@ -231,6 +234,9 @@ class Unit:
             raise ExtractError('unsupported construct: body of %s now needs rewrite(s) %s which the unit does not allow (allowed: %s)'
                                % (path, ','.join(sorted(used - allowed)), ','.join(sorted(allowed)) or 'none'))
         hints = 0
+        if path in self.drop_hints:
+            self.anchors_lost.append('%s: proof hints no longer compile against the changed body - all hints of this function dropped' % path)
+            sections = []
         for sec in sections:
             text = '\n'.join(sec['text'])
             hints += 1
@@ -261,6 +267,8 @@ class Unit:
             b = Body(body_text, base_line)
             if 'R7' in allowed:
                 b.r7_option_combinators()
+            if 'R9' in allowed:
+                b.r9_filter_count()
             b.r4_logging()
             b.r2_assert()
             b.r3_panic_closure()
